@@ -217,25 +217,50 @@ type dirState struct {
 	typedBad string
 }
 
+// lender hands each write call its bytes in ONE scratch buffer that is overwritten as soon as the
+// call has returned, as a caller reusing its buffer does (the io.Writer contract: the callee must
+// not keep the slice): a sender that holds on to the caller's memory ships whatever is there later.
+type lender struct{ buf []byte }
+
+func (l *lender) lend(b []byte) []byte {
+	l.clobber()
+	if cap(l.buf) < len(b)+32 {
+		l.buf = make([]byte, 0, len(b)+32+len(b)/4)
+	}
+	l.buf = append(l.buf[:0], b...)
+	return l.buf
+}
+
+func (l *lender) clobber() {
+	full := l.buf[:cap(l.buf)]
+	for i := range full {
+		full[i] = 0xEE
+	}
+}
+
 func send(ctx context.Context, st *stream.Stream, ep *simnet.Endpoint, m *msgPlan) {
 	m.attempted = true
 	var err error
+	var ld lender
+	defer ld.clobber()
 	sentAny := false
 	before := ep.BytesOut()
 	switch m.sendAPI {
 	case sendSingle:
-		err = st.SendMessage(ctx, m.body)
+		err = st.SendMessage(ctx, ld.lend(m.body))
+		ld.clobber()
 	case sendWrite:
 		st.StartMessage()
 		off := 0
 		for _, c := range m.cuts {
-			if err = st.WriteMessage(ctx, m.body[off:off+c]); err != nil {
+			if err = st.WriteMessage(ctx, ld.lend(m.body[off:off+c])); err != nil {
 				break
 			}
 			off += c
 			sentAny = true
 		}
 		if err == nil {
+			ld.clobber()
 			err = st.EndMessage(ctx)
 		}
 	case sendPartial:
@@ -244,14 +269,14 @@ func send(ctx context.Context, st *stream.Stream, ep *simnet.Endpoint, m *msgPla
 			if i == len(m.cuts)-1 {
 				break
 			}
-			if err = st.SendPartialMessage(ctx, m.body[off:off+c]); err != nil {
+			if err = st.SendPartialMessage(ctx, ld.lend(m.body[off:off+c])); err != nil {
 				break
 			}
 			sentAny = true
 			off += c
 		}
 		if err == nil {
-			err = st.SendMessage(ctx, m.body[off:])
+			err = st.SendMessage(ctx, ld.lend(m.body[off:]))
 		}
 	case sendTypedB:
 		mm := message.NewMessageForStream(st)
@@ -260,7 +285,7 @@ func send(ctx context.Context, st *stream.Stream, ep *simnet.Endpoint, m *msgPla
 			if c == 1 {
 				err = mm.PutChar(ctx, m.body[off])
 			} else {
-				err = mm.PutBytes(ctx, m.body[off:off+c])
+				err = mm.PutBytes(ctx, ld.lend(m.body[off:off+c]))
 			}
 			if err != nil {
 				break
@@ -268,12 +293,14 @@ func send(ctx context.Context, st *stream.Stream, ep *simnet.Endpoint, m *msgPla
 			off += c
 			sentAny = true
 			if i%2 == 1 && i != len(m.cuts)-1 {
+				ld.clobber()
 				if err = mm.FlushFrame(ctx, false); err != nil {
 					break
 				}
 			}
 		}
 		if err == nil {
+			ld.clobber()
 			err = mm.FinishMessage(ctx)
 		}
 	case sendTyped:
@@ -281,7 +308,7 @@ func send(ctx context.Context, st *stream.Stream, ep *simnet.Endpoint, m *msgPla
 		for _, it := range m.items {
 			switch it.kind {
 			case 'b':
-				err = mm.PutBytes(ctx, it.val)
+				err = mm.PutBytes(ctx, ld.lend(it.val))
 			case 'c':
 				err = mm.PutChar(ctx, byte(it.ival))
 			case 'i':
@@ -289,8 +316,9 @@ func send(ctx context.Context, st *stream.Stream, ep *simnet.Endpoint, m *msgPla
 			case 's':
 				err = mm.PutString(ctx, string(it.val))
 			case 'S':
-				err = mm.PutStringBytes(ctx, it.val)
+				err = mm.PutStringBytes(ctx, ld.lend(it.val))
 			case 'f':
+				ld.clobber()
 				err = mm.FlushFrame(ctx, false)
 			}
 			if err != nil {
@@ -299,6 +327,7 @@ func send(ctx context.Context, st *stream.Stream, ep *simnet.Endpoint, m *msgPla
 			sentAny = true
 		}
 		if err == nil {
+			ld.clobber()
 			err = mm.FinishMessage(ctx)
 		}
 	}
@@ -686,7 +715,6 @@ func firstDiff(a, b []byte) int {
 	}
 	return n
 }
-
 
 // runRefuse: a refused send must leave the stream usable - everything the sender accepts
 // afterwards still arrives, byte-exact.
